@@ -175,6 +175,21 @@ def true_str_lits(path):
         val = e.fact == ("eq", True)
         if neg:
             val = not val
+        # `s.strip_prefix(P)? == "REST"` is `s == P + "REST"` (and the same for a stripped suffix): report the full literal against s
+        xs = strip_refs(x)
+        for _ in range(3):
+            if isinstance(xs, tuple) and xs and xs[0] == "field" and xs[2] == 0 and isinstance(xs[1], tuple) and xs[1][0] == "downcast" and xs[1][2] in ("Some", "Continue"):
+                src = strip_refs(xs[1][1])
+                if xs[1][2] == "Continue" and is_call(src, "Try>::branch"):
+                    src = strip_refs(call_args(src)[0])
+                if is_call(src, "str>::strip_prefix", "str>::strip_suffix") and len(call_args(src)) == 2:
+                    fix = const_char(call_args(src)[1]) if const_char(call_args(src)[1]) is not None else const_str(call_args(src)[1])
+                    if fix is not None:
+                        lit = (fix + lit) if is_call(src, "str>::strip_prefix") else (lit + fix)
+                        x = call_args(src)[0]
+                        xs = strip_refs(x)
+                        continue
+            break
         (pos if val else negs).append((lit, x))
     return pos, negs
 
@@ -1168,4 +1183,58 @@ def accumulation(ctx, key, result, paths=None):
         return dict(src=src, item=item, fallible=has_try(item), form="loop",
                     locals={x[1] for x in subterms(srcarg) if x[0] in ("havoc", "mutated", "loc") and isinstance(x[1], int)})
     return None
+
+
+# ---------------------------------------------------------------- "exactly two parts": `v = s.split(c).collect(); v.len() == 2`  ==  `s.split_once(c)` and no further c in the tail
+
+def two_part_split(p, is_subject, sep):
+    """What path p assumed about splitting the subject at `sep` into exactly two parts:
+         ('two', is_part0, is_part1) | ('not-two', None, None) | (None, None, None) when the path does not decide it.
+       Forms: the collected unbounded split with a length test against 2; split_once (first occurrence) plus a test that the tail holds no further separator."""
+    # form 1: collect(split(S, sep)) with length facts
+    for c in p.conds():
+        lf = length_fact(c)
+        if lf is None:
+            continue
+        v = lf[0]
+        if is_call(v, "::collect") and is_call(strip_refs(call_args(v)[0]), "str>::split") and _sep(call_args(strip_refs(call_args(v)[0]))[1]) == sep \
+                and is_subject(content(call_args(strip_refs(call_args(v)[0]))[0])):
+            ok_n = [n for n in range(0, 6) if lf[1](n)]
+            if ok_n == [2]:
+                def part(i, v=v):
+                    return lambda t: (element_of(content(t)) or element_of(t)) is not None and (element_of(content(t)) or element_of(t))[0] == v and (element_of(content(t)) or element_of(t))[1] == i
+                return ("two", part(0), part(1))
+            if 2 not in ok_n:
+                return ("not-two", None, None)
+    # form 2: split_once + tail.contains(sep)
+    found = None
+    so = None
+    for c in p.conds():
+        t = c.term
+        if isinstance(t, tuple) and t and t[0] == "discr" and is_call(strip_refs(t[1]), "str>::split_once") and _sep(call_args(strip_refs(t[1]))[1]) == sep \
+                and is_subject(content(call_args(strip_refs(t[1]))[0])):
+            so = strip_refs(t[1])
+            found = c.fact == ("eq", 1) or (c.fact[0] == "ne" and 0 in c.fact[1])
+    if so is None:
+        return (None, None, None)
+    if not found:
+        return ("not-two", None, None)
+
+    def role(t):
+        ss = substr(t)
+        r = substr_role(ss)
+        return r if ss is not None and is_subject(ss[0]) and r[1] == "find" and r[2] == sep else ("none", None, None)
+    more = None
+    for c in p.conds():
+        t = c.term
+        if is_call(t, "str>::contains") and _sep(call_args(t)[1]) == sep and role(call_args(t)[0])[0] == "suffix":
+            more = c.fact == ("eq", True)
+        if isinstance(t, tuple) and t and t[0] == "discr" and is_call(strip_refs(t[1]), "str>::find", "str>::rfind", "str>::split_once") and _sep(call_args(strip_refs(t[1]))[1]) == sep \
+                and role(call_args(strip_refs(t[1]))[0])[0] == "suffix":
+            more = c.fact == ("eq", 1) or (c.fact[0] == "ne" and 0 in c.fact[1])
+    if more is None:
+        return (None, None, None)        # the tail is never examined: "a:b:c" would be taken as two parts
+    if more:
+        return ("not-two", None, None)
+    return ("two", lambda t: role(t)[0] == "prefix", lambda t: role(t)[0] == "suffix")
 
